@@ -320,10 +320,15 @@ pub fn gen_plan(rng: &mut Rng, prof: &Profile, thorough: bool) -> Plan {
             } else {
                 (inv.clone(), amt_field.clone())
             };
+            // one request in twelve carries its amount record in front of the invoice record
+            let (m_amt, amt_first) = match (&m_amt, rng.chance(1, 12)) {
+                (AmtField::Bytes(b), true) => (AmtField::Absent, vec![(33003u64, b.clone())]),
+                _ => (m_amt, vec![]),
+            };
             let metadata = Metadata::Tramp {
                 invoice: m_inv,
                 amt: m_amt,
-                extra_before: if rng.chance(1, 10) { vec![(1, rng.bytes(3))] } else { vec![] },
+                extra_before: if !amt_first.is_empty() { amt_first } else if rng.chance(1, 10) { vec![(1, rng.bytes(3))] } else { vec![] },
                 extra_after: if rng.chance(1, 10) { vec![(40001, rng.bytes(5))] } else { vec![] },
             };
             let onion_scid = if rng.chance(1, 40) { Some("1x2x3".to_string()) } else { None };
